@@ -1,0 +1,88 @@
+//go:build verif
+
+// Contracts for the contract-based verification in /verif (comment-only file).
+
+package pktcls
+
+//@ import gopacket "github.com/gopacket/gopacket"
+//@ import layers "github.com/gopacket/gopacket/layers"
+
+//@ # ---- C43: traffic-class conditions evaluate as written. holds(c, v) is "the boolean value of condition c on
+//@ # layer v": the contract of the interface method Cond.Eval, so the recursion through sub-conditions is structural.
+//@ spec func holds(c Cond, v gopacket.Layer) bool uninterpreted
+//@ iface Cond.Eval
+//@   modifies nothing
+//@   ensures result == holds(self, v)
+//@ spec func ipv4Holds(p IPv4Predicate, pkt *layers.IPv4) bool uninterpreted
+//@ iface IPv4Predicate.Eval
+//@   modifies nothing
+//@   ensures result == ipv4Holds(self, arg0)
+//@ spec func portHolds(p PortPredicate, src uint16, dst uint16) bool uninterpreted
+//@ iface PortPredicate.Eval
+//@   requires arg0 != nil
+//@   modifies nothing
+//@   ensures result == portHolds(self, arg0.Src, arg0.Dst)
+
+//@ # all(...): every sub-condition holds (documented: true without sub-conditions)
+//@ func (CondAllOf).Eval
+//@   props C43
+//@   requires forall i int :: 0 <= i && i < len(c) ==> c[i] != nil
+//@   modifies nothing
+//@   loop 1 invariant 0 <= (rangeindex+1) && (rangeindex+1) <= len(c)
+//@   loop 1 invariant forall j int :: 0 <= j && j < (rangeindex+1) ==> holds(c[j], v)
+//@   ensures result == (forall i int :: 0 <= i && i < len(c) ==> holds(c[i], v))
+
+//@ # any(...): some sub-condition holds (documented: true without sub-conditions)
+//@ func (CondAnyOf).Eval
+//@   props C43
+//@   requires forall i int :: 0 <= i && i < len(c) ==> c[i] != nil
+//@   modifies nothing
+//@   loop 1 invariant 0 <= (rangeindex+1) && (rangeindex+1) <= len(c) && len(c) > 0
+//@   loop 1 invariant forall j int :: 0 <= j && j < (rangeindex+1) ==> !holds(c[j], v)
+//@   ensures result == (len(c) == 0 || (exists i int :: 0 <= i && i < len(c) && holds(c[i], v)))
+
+//@ # not(x)
+//@ func (CondNot).Eval
+//@   props C43
+//@   modifies nothing
+//@   ensures c.Operand != nil ==> result == !holds(c.Operand, v)
+//@   ensures c.Operand == nil ==> !result
+
+//@ func (CondBool).Eval
+//@   props C43
+//@   modifies nothing
+//@   ensures result == bool(c)
+
+//@ # IPv4 field matchers
+//@ func (*IPv4MatchToS).Eval
+//@   props C43
+//@   requires m != nil && p != nil
+//@   modifies nothing
+//@   ensures result == (m.TOS == p.TOS)
+
+//@ # the DSCP is the upper six bits of the TOS byte
+//@ func (*IPv4MatchDSCP).Eval
+//@   props C43
+//@   requires m != nil && p != nil
+//@   modifies nothing
+//@   ensures result == (m.DSCP == p.TOS >> 2)
+//@   ensures result == (m.DSCP < 64 && m.DSCP*4 == p.TOS & 0xfc)
+
+//@ func (*IPv4MatchProtocol).Eval
+//@   props C43
+//@   requires m != nil && p != nil
+//@   modifies nothing
+//@   ensures result == (m.Protocol == uint8(p.Protocol))
+
+//@ # port ranges are inclusive on both ends
+//@ func (*PortMatchSource).Eval
+//@   props C43
+//@   requires m != nil && p != nil
+//@   modifies nothing
+//@   ensures result == (m.MinPort <= p.Src && p.Src <= m.MaxPort)
+
+//@ func (*PortMatchDestination).Eval
+//@   props C43
+//@   requires m != nil && p != nil
+//@   modifies nothing
+//@   ensures result == (m.MinPort <= p.Dst && p.Dst <= m.MaxPort)
